@@ -1,3 +1,4 @@
 import DinoGen.Tableaux
 import DinoGen.ForcingConsts
 import DinoGen.SHCert
+import DinoGen.GridCert
